@@ -276,6 +276,10 @@ Fixpoint unpackN (width : N) (len : nat) (x : N) : list nat :=     (* digits of 
 Definition U (len x : N) : list nat := unpackN 8 (N.to_nat len) x.
 (* a row of a boolean matrix: bit j = column j *)
 Definition R (len x : N) : list bool := map (fun j => N.testbit x (N.of_nat j)) (seq 0 (N.to_nat len)).
+(* the index list of the recorded argsort calls is eventually periodic: prefix ++ cycle ++ cycle ++ ..., cut at `total` *)
+Definition cyc (pre cy : list nat) (total : N) : list nat :=
+  map (fun k => if k <? length pre then nth k pre 0 else nth ((k - length pre) mod length cy) cy 0)
+      (seq 0 (N.to_nat total)).
 Definition mkE (i len x : N) : eqn := (N.to_nat i, U len x).
 Definition okN (len x : N) : seq_result := SeqOk (U len x).
 Definition errN (c : N) : seq_result := SeqErr (N.to_nat c).
